@@ -332,6 +332,13 @@ impl SearchState {
             self.upper_bound = self.last_probed_mtu - 1;
         }
 
+        if self.upper_bound <= self.lower_bound {
+            // Nothing is left between the largest size known to work and the smallest one that
+            // does not: probing on would only repeat sizes at or below the current MTU, and a
+            // probe below it would lower the estimate once acknowledged
+            return None;
+        }
+
         let next_mtu = (self.lower_bound as i32 + self.upper_bound as i32) / 2;
 
         // Binary search stopping condition
